@@ -183,11 +183,19 @@ where
         loop {
             let wait_read = async {
                 let mut buffer = self.state.take_buffer();
-                if buffer.is_empty() {
+                // Bytes left over while waiting for a request are an incomplete request head
+                // which has already been parsed once: parsing it again without new data would
+                // spin forever, so wait for the rest of it
+                let incomplete_head =
+                    !buffer.is_empty() && matches!(self.state, State::WaitingRequest(_));
+                if buffer.is_empty() || incomplete_head {
                     if matches!(self.state, State::RequestInProgress(_)) {
                         let _ = self.upload_tx.reserve().await;
                     }
-                    self.transport_stream.read_buf(&mut buffer).await?;
+                    if self.transport_stream.read_buf(&mut buffer).await? == 0 {
+                        // end of stream, possibly in the middle of a request head
+                        buffer.clear();
+                    }
                 }
                 Ok(buffer)
             };
